@@ -128,9 +128,13 @@ def dedupKeep : List Text → List Text → List Text
   | acc, x :: xs => if acc.contains x then dedupKeep acc xs else dedupKeep (x :: acc) xs
 
 /-- the models a request module imports: those its inputs mention, then the one inside a non-model result -/
+def retModels (t : Ty) : List Text :=
+  match t with
+  | .model _ => []
+  | t => match t.innerModel with | some m => [m] | none => []
+
 def requestImports (op : Operation) : Except Panic (List Text) :=
-  let names := op.params.filterMap (fun p => p.ty.innerModel) ++
-    (match op.ret with | .model _ => [] | t => match t.innerModel with | some m => [m] | none => [])
+  let names := op.params.filterMap (fun p => p.ty.innerModel) ++ retModels op.ret
   match mapE sanitizeStruct names with
   | .ok ids => .ok (dedupKeep [] ids)
   | .error e => .error e
@@ -140,6 +144,19 @@ def structField (useRef : Bool) (p : Param) : Except Panic (Text × Text) :=
   | .ok i, .ok t => .ok (i, optionWrap p.optional t)
   | .error e, _ => .error e
   | _, .error e => .error e
+
+/-- one positional argument of the client method -/
+def argOf (p : Param) : Except Panic (Text × Text) :=
+  match sanitize p.name, toReferenceType [] p.ty with
+  | .ok i, .ok t => .ok (i, t)
+  | .error e, _ => .error e
+  | _, .error e => .error e
+
+/-- one field of the struct literal in the client method -/
+def litOf (useStruct : Bool) (p : Param) : Except Panic (Text × Text) :=
+  match sanitize p.name with
+  | .ok i => .ok (i, literalExpr p i useStruct)
+  | .error e => .error e
 
 /-- `make_single_module` (request.rs) with `build_api_client_method` -/
 def makeRequestFile (hasSecurity : Bool) (cfg : Cfg) (op : Operation) : Except Panic RequestFile :=
@@ -160,10 +177,8 @@ def makeRequestFile (hasSecurity : Bool) (cfg : Cfg) (op : Operation) : Except P
         match opRequiredStruct op.name with
         | .ok rn => .ok [(cs!"args", rn)]
         | .error e => .error e
-      else mapE (fun p => match sanitize p.name, toReferenceType [] p.ty with
-                          | .ok i, .ok t => .ok (i, t) | .error e, _ => .error e | _, .error e => .error e) (mandatory op.params)
-    let litX : Except Panic (List (Text × Text)) :=
-      mapE (fun p => match sanitize p.name with | .ok i => .ok (i, literalExpr p i useStruct) | .error e => .error e) op.params
+      else mapE argOf (mandatory op.params)
+    let litX : Except Panic (List (Text × Text)) := mapE (litOf useStruct) op.params
     match reqX, argsX, litX, requestImports op with
     | .ok req, .ok args, .ok lit, .ok imps =>
       .ok { stem := stem, imports := imps, structName := sname, derives := builtinStructDerives ++ userDerives cfg,
